@@ -120,31 +120,7 @@ func (e *Engine) setupExt() {
 		return tuple{(*value)(nil), zero(types.Universe.Lookup("error").Type())}
 	}
 	x["text/template.Must"] = func(e *Engine, fr *frame, a []value) value { return a[0] }
-	nop := func(e *Engine, fr *frame, a []value) value { return nil }
-	x["log.Printf"] = nop
-	x["log.Println"] = nop
 	x["(time.Duration).Nanoseconds"] = func(e *Engine, fr *frame, a []value) value { return a[0] }
-	// opaque error construction
-	x["fmt.Errorf"] = func(e *Engine, fr *frame, a []value) value {
-		return e.callFn(e.fn("errors", "New"), []value{constStrV("fmt.Errorf")})
-	}
-	x["fmt.Sprintf"] = func(e *Engine, fr *frame, a []value) value {
-		f, ok := a[0].(*bytesV).goString()
-		if !ok {
-			return constStrV("<fmt.Sprintf>")
-		}
-		var gargs []interface{}
-		if sl, ok := a[1].(*sliceV); ok && sl.arr != nil {
-			for _, v := range (*sl.arr)[sl.off : sl.off+sl.len] {
-				g, ok := toGo(v.(iface).v)
-				if !ok {
-					return constStrV("<fmt.Sprintf>")
-				}
-				gargs = append(gargs, g)
-			}
-		}
-		return constStrV(fmt.Sprintf(f, gargs...))
-	}
 	x["crypto/sha256.Sum256"] = func(e *Engine, fr *frame, a []value) value {
 		s, ok := a[0].(*bytesV).goString()
 		if !ok {
@@ -212,35 +188,6 @@ func (e *Engine) setupExt() {
 	x["internal/godebug.New"] = func(e *Engine, fr *frame, a []value) value { return (*value)(nil) }
 
 	// net/http models
-	x["net/http.NewRequest"] = func(e *Engine, fr *frame, a []value) value {
-		reqT := e.namedType("net/http", "Request")
-		req := zero(reqT).(structV)
-		req[structField(reqT, "Method")] = a[0]
-		hdr := &mapV{}
-		req[structField(reqT, "Header")] = hdr
-		body := a[2].(iface)
-		if body.t != nil {
-			rc := e.callFn(e.fn("io", "NopCloser"), []value{body})
-			req[structField(reqT, "Body")] = rc
-		}
-		p := new(value)
-		*p = req
-		errT := types.Universe.Lookup("error").Type()
-		return tuple{p, zero(errT)}
-	}
-	x["(net/http.Header).Set"] = func(e *Engine, fr *frame, a []value) value {
-		m := a[0].(*mapV)
-		vals := []value{a[2]}
-		sv := &sliceV{arr: &vals, len: 1, cap: 1}
-		_, _, i := e.mapLookup(m, a[1])
-		if i >= 0 {
-			m.vals[i] = sv
-		} else {
-			m.keys = append(m.keys, a[1])
-			m.vals = append(m.vals, sv)
-		}
-		return nil
-	}
 	x["(*net/http.Client).Do"] = func(e *Engine, fr *frame, a []value) value {
 		cl := (*a[0].(*value)).(structV)
 		clT := e.namedType("net/http", "Client")
@@ -254,4 +201,3 @@ func (e *Engine) setupExt() {
 		return e.callFn(f, []value{tr.v, a[1]})
 	}
 }
-
